@@ -53,6 +53,7 @@ type FuncContract struct {
 		C     Clause
 	}
 	Trusted  bool
+	Reveal   map[string]bool
 	Labels   *LabelDecl
 	PureFn   map[string]bool // function-typed params treated as deterministic
 	DynTypes map[string][]string
@@ -257,6 +258,13 @@ func parseClause(fc *FuncContract, kw, rest, pos string) error {
 		}
 	case "trusted":
 		fc.Trusted = true
+	case "reveal":
+		if fc.Reveal == nil {
+			fc.Reveal = map[string]bool{}
+		}
+		for _, n := range strings.Fields(rest) {
+			fc.Reveal[n] = true
+		}
 	case "label":
 		// label <param|result> mac|key|usr|clean ...
 		f := strings.Fields(rest)
